@@ -17,6 +17,7 @@ EXHAUSTIVE = {"thorough": True}
 
 VALS = (0x00, 0x01, 0x7F, 0x80, 0xFF)
 CASE_ALARM_S = 30
+BLOCK_TICK_S = 10
 MEM_CEILING = 2 << 30
 
 
@@ -137,13 +138,22 @@ class Runner:
         return "ok", (zones, zrej)
 
     def count_lines(self, b, cap, want=None):
-        """Executed-line count of one attempt (sys.monitoring LINE events), stopping at `cap`."""
+        """Executed-line count of one attempt (sys.monitoring LINE events), stopping at `cap`.
+        A run that executes no line at all between two watchdog ticks is blocked (a lock that is never released, a read that never returns):
+        it is stopped and reported as -1."""
         import sys
         mon = sys.monitoring; tool = 3
-        n = [0]
+        n = [0]; last = [-10**9]; blocked = [False]
 
-        class Cap(BaseException):
+        class Cap(CaseTimeout):      # attempt() lets CaseTimeout through (and nothing else), so the stop signal must be one
             pass
+
+        def tick(signum, frame):
+            if n[0] - last[0] < 200:          # (this handler's own few lines are counted too)
+                blocked[0] = True
+                raise Cap()
+            last[0] = n[0]
+            signal.alarm(BLOCK_TICK_S)
 
         def cb(code, line):
             n[0] += 1
@@ -156,18 +166,21 @@ class Runner:
             pass
         mon.register_callback(tool, mon.events.LINE, cb)
         mon.set_events(tool, mon.events.LINE)
+        old_handler = signal.signal(signal.SIGALRM, tick)
+        signal.alarm(BLOCK_TICK_S)
         try:
             try:
                 self.attempt(b, want)
             except Cap:
                 pass
         finally:
+            signal.alarm(0); signal.signal(signal.SIGALRM, old_handler)
             mon.set_events(tool, 0); mon.register_callback(tool, mon.events.LINE, None)
             try:
                 mon.free_tool_id(tool)
             except Exception:  # noqa: BLE001
                 pass
-        return n[0]
+        return -1 if blocked[0] else n[0]
 
     def run_case(self, b, label, fkey, want=None):
         ctx = self.ctx
@@ -190,7 +203,10 @@ class Runner:
             base = max(1000, self.count_lines(self.intact, 10**9, want))
             cap = 50 * base
             n = self.count_lines(b, cap, want)
-            if n > cap:
+            if n == -1:
+                self.hangs = getattr(self, "hangs", 0) + 1
+                ctx.V("C20:not-prompt", f"{self.which} fault {label}: blocked - no line executed for {BLOCK_TICK_S} s while the same operations on the intact file take {base} lines in all (a wait that never ends)", case, "blocked", base)
+            elif n > cap:
                 self.hangs = getattr(self, "hangs", 0) + 1
                 ctx.V("C20:not-prompt", f"{self.which} fault {label}: executes more than 50x the lines the same operations take on the intact file ({n} > {cap}) - treated as a hang", case, n, cap)
             else:
